@@ -48,6 +48,8 @@ def run(ctx):
   # from the same replica slot: a statistic must never meet another parameter's exponent
   from . import C13
   C13.axis_names(ctx)
+  # ... and every parameter gets back its own slice of the flat result list
+  C13.redistribution(ctx)
 
 
 def _letters_summary(ev, bound, rec):
